@@ -888,7 +888,7 @@ static void setup(void) {
     else if (strstr(O.stage, "count")) ALLOC = A_TRACK;
     else vh_die("driver hist: C13 stage must name tagged, arena or count");
   }
-  if (ALLOC == A_TRACK) { ta_install(); if (!ta_selftest()) vh_die("track allocator self-test failed"); ta_set_free_hook(free_hook); if (P == 13) ta_set_cap((size_t)1 << 20); }
+  if (ALLOC == A_TRACK) { ta_install(); if (!ta_selftest()) vh_die("track allocator self-test failed"); ta_set_free_hook(free_hook); if (P == 13) ta_set_cap((size_t)1 << 20); if (P == 13 && strstr(O.stage, "zeronull")) ta_set_zero_null(true); }
   else if (ALLOC == A_TAGGED) tg_install();
   else { ar_install(); ar_reset(); }
   devnull = fopen("/dev/null", "w");
